@@ -184,6 +184,9 @@ pub struct FileCase {
     /// the record list is written this many times (ids suffixed): batches of hundreds of records
     #[serde(default)]
     pub copies: usize,
+    /// bytes of left-over text at the output path before the run
+    #[serde(default)]
+    pub stale: u32,
 }
 
 pub fn check_file(c: &FileCase) -> Verdict {
@@ -211,6 +214,10 @@ pub fn check_file(c: &FileCase) -> Verdict {
     let dir = crate::scratch_dir();
     let input = io::write_input(dir.path(), "in", &recs, &c.cont);
     let out = dir.path().join("out.cgr");
+    io::set_stale(c.stale as usize);
+    io::plant_stale(&out);
+    io::set_stale(0);
+    v.class_if(c.stale > 0, "output-path-holds-an-earlier-result");
     let mem = c.mem.bytes(&recs);
     let batches = c.mem.batches(&recs);
     v.class(match batches { 0 | 1 => "batches<=1", 2 => "batches=2", _ => "batches>=3" });
@@ -308,8 +315,9 @@ impl Leg for Files {
             // tests several bytes at once may let some values through that a table lookup rejects)
             prop_oneof![6 => Just(None), 1 => (any::<u16>(), any::<u16>(), gen::foreign(true)).prop_map(Some), 2 => (any::<u16>(), any::<u16>(), (0x21u8..=0x7e).prop_map(|b| if crate::model::is_base(b) || b == b'>' || b == b'@' || b == b'+' { b'N' } else { b })).prop_map(Some)],
             prop_oneof![8 => Just(1usize), 1 => 8usize..=40],
+            io::stale_strategy(),
         )
-            .prop_map(|((recs, cont), s, threads, mem, poison, copies)| FileCase { recs, cont, s, threads, mem, poison, copies })
+            .prop_map(|((recs, cont), s, threads, mem, poison, copies, stale)| FileCase { recs, cont, s, threads, mem, poison, copies, stale })
             .boxed()
     }
     fn check(c: &FileCase) -> Verdict {
